@@ -23,7 +23,7 @@ using namespace sim; using namespace codec;
 // ============================================================================ scheduler
 namespace sched {
 struct Th { pthread_t th; sem_t sem; bool done; std::function<void()> body; };
-static Th* threads = 0; static int nthreads = 0; static volatile bool on = false; static volatile int cur = -1;
+static void (*on_thread_start)() = 0; static Th* threads = 0; static int nthreads = 0; static volatile bool on = false; static volatile int cur = -1;
 static __thread int tl_id = -1; static __thread int tl_nopreempt = 0;
 static Rng rng(1); static int64_t budget = 0; static int budget_lo = 1, budget_hi = 1000; static uint64_t steps = 0, switches = 0; static uint64_t sched_hash = 0;
 static int64_t draw_budget() { return budget_lo + (int64_t)rng.below((uint64_t)(budget_hi - budget_lo + 1)); }
@@ -35,7 +35,7 @@ static void yield_now() {
     while (sem_wait(&threads[self].sem) != 0) {}
 }
 static void* entry(void* a) {
-    int id = (int)(intptr_t)a; tl_id = id; while (sem_wait(&threads[id].sem) != 0) {}
+    int id = (int)(intptr_t)a; tl_id = id; if (on_thread_start) on_thread_start(); while (sem_wait(&threads[id].sem) != 0) {}
     threads[id].body();
     threads[id].done = true; int nx = pick_runnable(id); budget = draw_budget(); if (nx >= 0) { cur = nx; ++switches; sem_post(&threads[nx].sem); }
     tl_id = -1; return 0;
@@ -49,18 +49,48 @@ static void run(std::vector<std::function<void()> >& bodies, uint64_t seed, int 
 }
 }
 
+// ============================================================================ per-thread heap arenas (ownership by address range)
+// Every logical thread allocates from its own arena inside one reserved mapping (bump allocation, reset at the start of a
+// run); outside simulated threads (set-up, warm-up, one-time initialisations) operator new falls through to malloc.
+#include <sys/mman.h>
+#include <new>
+namespace arena {
+static const size_t NARENA = 16, ARENA_SZ = (size_t)256 << 20; static uint8_t* base = 0; static size_t used[NARENA];
+static void init() { if (!base) base = (uint8_t*)mmap(0, NARENA * ARENA_SZ, PROT_READ | PROT_WRITE, MAP_PRIVATE | MAP_ANONYMOUS | MAP_NORESERVE, -1, 0); }
+static const int LIFETIME = 15;   // objects created by one-time initialisation during warm-up live here for the whole process
+static void reset() { init(); for (size_t i = 0; i < NARENA; ++i) { if ((int)i == LIFETIME) continue; if (used[i]) madvise(base + i * ARENA_SZ, used[i], MADV_DONTNEED); used[i] = 0; } }
+static inline bool contains(const void* p) { return base && (const uint8_t*)p >= base && (const uint8_t*)p < base + NARENA * ARENA_SZ; }
+static inline int owner(const void* p) { return (int)(((const uint8_t*)p - base) / ARENA_SZ); }
+}
+namespace mon { static __thread int tl_logical = -1; }
+static void* arena_alloc(size_t n, bool nothrow) {
+    int t = mon::tl_logical;
+    if (t >= 0 && t < (int)arena::NARENA && arena::base) { size_t sz = (n + 15) & ~(size_t)15; if (sz == 0) sz = 16; if (arena::used[t] + sz <= arena::ARENA_SZ) { void* p = arena::base + (size_t)t * arena::ARENA_SZ + arena::used[t]; arena::used[t] += sz; return p; } }
+    void* p = malloc(n ? n : 1); if (!p && !nothrow) throw std::bad_alloc(); return p;
+}
+static void arena_free(void* p) { if (!p || arena::contains(p)) return; free(p); }
+void* operator new(size_t n) { return arena_alloc(n, false); } void* operator new[](size_t n) { return arena_alloc(n, false); }
+void* operator new(size_t n, const std::nothrow_t&) noexcept { return arena_alloc(n, true); } void* operator new[](size_t n, const std::nothrow_t&) noexcept { return arena_alloc(n, true); }
+void operator delete(void* p) noexcept { arena_free(p); } void operator delete[](void* p) noexcept { arena_free(p); } void operator delete(void* p, size_t) noexcept { arena_free(p); } void operator delete[](void* p, size_t) noexcept { arena_free(p); }
+
 // ============================================================================ shared-access monitor
 namespace mon {
 extern "C" char __data_start, _end;
-static uintptr_t lo = 0, hi = 0; static volatile bool on = false; static __thread int tl_logical = -1;
+static uintptr_t lo = 0, hi = 0; static volatile bool on = false; static uint64_t n_cross_heap = 0, n_other_heap = 0, n_dbg = 0; static __thread uintptr_t tl_stack_lo = 0, tl_stack_hi = 0;
+static void note_stack() { pthread_attr_t at; if (pthread_getattr_np(pthread_self(), &at) == 0) { void* sa = 0; size_t sz = 0; pthread_attr_getstack(&at, &sa, &sz); tl_stack_lo = (uintptr_t)sa; tl_stack_hi = (uintptr_t)sa + sz; pthread_attr_destroy(&at); } }
 struct Ent { uintptr_t a; uint32_t writers, readers; };
 static const size_t TAB = 1 << 16; static Ent tab[TAB]; static uint64_t n_static_reads = 0, n_static_writes = 0, n_guarded_writes = 0;
-static void reset() { memset(tab, 0, sizeof tab); n_static_reads = n_static_writes = n_guarded_writes = 0; lo = (uintptr_t)&__data_start; hi = (uintptr_t)&_end; }
+static void reset() { memset(tab, 0, sizeof tab); n_static_reads = n_static_writes = n_guarded_writes = 0; n_cross_heap = 0; n_other_heap = 0; lo = (uintptr_t)&__data_start; hi = (uintptr_t)&_end; }
+static void* dbg_ra = 0;
 static inline void access(const void* p, bool write) {
-    if (!on) return; uintptr_t a = (uintptr_t)p; if (a < lo || a >= hi) return; int t = tl_logical; if (t < 0) return;
-    if (write) { if (sched::tl_nopreempt > 0) { ++n_guarded_writes; return; } ++n_static_writes; } else ++n_static_reads;
+    if (!on) return; uintptr_t a = (uintptr_t)p; int t = tl_logical; if (t < 0) return;
+    if (a < lo || a >= hi) {
+        // heap: a block owned by another logical thread (its arena). Thread-private objects never cross arenas, so any such access is hidden sharing
+        if (arena::contains(p)) { if (arena::owner(p) == t) return; ++n_cross_heap; if (write && sched::tl_nopreempt > 0) return; }
+        else return;   // neither static nor an arena (own stack, exception objects and other malloc memory): not judged
+    } else { if (write) { if (sched::tl_nopreempt > 0) { ++n_guarded_writes; return; } ++n_static_writes; } else ++n_static_reads; }
     uintptr_t g = a >> 3; size_t h = (size_t)((g * 0x9e3779b97f4a7c15ULL) >> 48) & (TAB - 1);
-    for (size_t i = 0; i < TAB; ++i) { Ent& e = tab[(h + i) & (TAB - 1)]; if (e.a == 0) e.a = g; if (e.a == g) { if (write) e.writers |= 1u << t; else e.readers |= 1u << t; return; } }
+    for (size_t i = 0; i < TAB; ++i) { Ent& e = tab[(h + i) & (TAB - 1)]; if (e.a == 0) e.a = g; if (e.a == g) { if (write) e.writers |= 1u << t; else e.readers |= 1u << t; if (arena::contains(p) && arena::owner(p) != arena::LIFETIME) e.writers |= 1u << arena::owner(p); return; } }
 }
 }
 extern "C" {
@@ -68,8 +98,8 @@ void __sanitizer_cov_trace_pc_guard_init(uint32_t* start, uint32_t* stop) { stat
 void __sanitizer_cov_trace_pc_guard(uint32_t*) { if (!sched::on || sched::tl_id < 0) return; ++sched::steps; if (sched::tl_nopreempt) return; if (--sched::budget > 0) return; sched::yield_now(); }
 void __sanitizer_cov_load1(uint8_t* p) { mon::access(p, false); } void __sanitizer_cov_load2(uint16_t* p) { mon::access(p, false); } void __sanitizer_cov_load4(uint32_t* p) { mon::access(p, false); }
 void __sanitizer_cov_load8(uint64_t* p) { mon::access(p, false); } void __sanitizer_cov_load16(__uint128_t* p) { mon::access(p, false); }
-void __sanitizer_cov_store1(uint8_t* p) { mon::access(p, true); } void __sanitizer_cov_store2(uint16_t* p) { mon::access(p, true); } void __sanitizer_cov_store4(uint32_t* p) { mon::access(p, true); }
-void __sanitizer_cov_store8(uint64_t* p) { mon::access(p, true); } void __sanitizer_cov_store16(__uint128_t* p) { mon::access(p, true); }
+void __sanitizer_cov_store1(uint8_t* p) { mon::dbg_ra = __builtin_return_address(0); mon::access(p, true); } void __sanitizer_cov_store2(uint16_t* p) { mon::dbg_ra = __builtin_return_address(0); mon::access(p, true); } void __sanitizer_cov_store4(uint32_t* p) { mon::dbg_ra = __builtin_return_address(0); mon::access(p, true); }
+void __sanitizer_cov_store8(uint64_t* p) { mon::dbg_ra = __builtin_return_address(0); mon::access(p, true); } void __sanitizer_cov_store16(__uint128_t* p) { mon::dbg_ra = __builtin_return_address(0); mon::access(p, true); }
 // one-time initialisation of function-local statics: not preempted inside (another thread would block on the guard while
 // the holder is parked) and the monitor treats the writes as initialisation
 int __real___cxa_guard_acquire(void*); void __real___cxa_guard_release(void*); void __real___cxa_guard_abort(void*);
@@ -191,12 +221,12 @@ struct ThrEngine : Engine {
                "\"stub\":[\"thread scheduler: threads parked on semaphores, one runs, preemption at basic-block granularity chosen by the seeded PRNG\",\"__cxa_guard_* wrappers (no preemption inside one-time initialisation)\",\"workload generator sim/gen + fixtures\"]}";
     }
     std::string rule_text(const std::string&) const {
-        return "one run = 2-16 threads, each with a private list of library calls on thread-private objects (parse+inspect+clone+serialize frames of all link types, IPv4 reassembly with a private reassembler, WPA2/WEP decryption with private decrypters incl. PBKDF2 and the 4-way handshake, DNS build/parse, address parse/print/range iteration, packet building, a private StreamFollower); the schedule is a seeded sequence of (basic-block budget, next thread) choices. Oracles: (a) no location in the executable's static storage is written by one thread outside one-time initialisation and accessed by another; (b) every thread's digest equals the digest of its calls run alone. distinct = distinct (workload, schedule hash); non-trivial = at least 2 threads executed >= 1 context switch each inside library code";
+        return "one run = 2-15 threads, each with a private list of library calls on thread-private objects (parse+inspect+clone+serialize frames of all link types, IPv4 reassembly with a private reassembler, WPA2/WEP decryption with private decrypters incl. PBKDF2 and the 4-way handshake, DNS build/parse, address parse/print/range iteration, packet building, a private StreamFollower); the schedule is a seeded sequence of (basic-block budget, next thread) choices. Oracles: (a) no location in the executable's static storage is written by one thread outside one-time initialisation and accessed by another; (b) every thread's digest equals the digest of its calls run alone. distinct = distinct (workload, schedule hash); non-trivial = at least 2 threads executed >= 1 context switch each inside library code";
     }
     Plan generate(uint64_t seed, const std::string&, const std::string& tier) {
         Rng root(seed); Rng cfg = root.fork("cfg"), wl = root.fork("workload");
         Plan p; p.engine = "thr"; p.mode = "thr"; p.seed = seed; p.cfg.set("property", "C18");
-        int K = cfg.chance(0.7) ? (int)cfg.range(2, 4) : (int)cfg.range(5, 16); int per = (int)cfg.range(3, tier == "thorough" ? 40 : 14);
+        int K = cfg.chance(0.7) ? (int)cfg.range(2, 4) : (int)cfg.range(5, 15); int per = (int)cfg.range(3, tier == "thorough" ? 40 : 14);
         int bclass = (int)cfg.below(3); int blo = 1, bhi = bclass == 0 ? 50 : bclass == 1 ? 2000 : 60000;
         p.cfg.set("threads", K).setu("sched", root.fork("sched").next()).set("blo", blo).set("bhi", bhi).set("seqfirst", cfg.chance(0.5) ? 1 : 0);
         const int dlts[7] = { gen::DLT_EN10MB_, gen::DLT_EN10MB_, gen::DLT_RAW_, gen::DLT_IEEE802_11_, gen::DLT_IEEE802_11_RADIO_, gen::DLT_LINUX_SLL_, gen::DLT_NULL_ };
@@ -228,22 +258,22 @@ struct ThrEngine : Engine {
         std::vector<uint64_t> seq(K, 0), con(K, 0);
         // one-time initialisations (function-local statics, OpenSSL/libpcap lazy setup) must not depend on the history of the
         // process: the first execution in any process (worker, minimiser child, replay) first runs every op of the plan once, unmonitored
-        { static bool warmed = false; if (!warmed) { warmed = true; for (int t = 0; t < K; ++t) { ThreadState ts; uint64_t h = 0; for (auto& k : ops[t]) h = run_op(k, ts, h); }
+        { static bool warmed = false; if (!warmed) { warmed = true; arena::init(); mon::tl_logical = arena::LIFETIME; for (int t = 0; t < K; ++t) { ThreadState ts; uint64_t h = 0; for (auto& k : ops[t]) h = run_op(k, ts, h); }
             const char* sets[3] = { "ccmp_packets", "tkip_packets", "ccmp_qos_packets" }; for (int i = 0; i < 3; ++i) { ThreadState ts; KV k; k.set("op", "wpa2").set("set", sets[i]); run_op(k, ts, 0); }
-            { ThreadState ts; KV k; k.set("op", "frag").set("pl", Bytes(64, 1)).set("mtu", 16).set("id", 1).set("ord", 0); run_op(k, ts, 0); KV d; d.set("op", "dns").set("id", 1).set("n", 2); run_op(d, ts, 0); KV a; a.set("op", "addr").setu("v", 12345); run_op(a, ts, 0); KV b; b.set("op", "build").setu("v", 777); run_op(b, ts, 0); KV w; w.set("op", "wep").set("bad", 0); run_op(w, ts, 0); } } }
-        mon::reset(); memset(unsafe::callers, 0, sizeof unsafe::callers);
+            { ThreadState ts; KV k; k.set("op", "frag").set("pl", Bytes(64, 1)).set("mtu", 16).set("id", 1).set("ord", 0); run_op(k, ts, 0); KV d; d.set("op", "dns").set("id", 1).set("n", 2); run_op(d, ts, 0); KV a; a.set("op", "addr").setu("v", 12345); run_op(a, ts, 0); KV b; b.set("op", "build").setu("v", 777); run_op(b, ts, 0); KV w; w.set("op", "wep").set("bad", 0); run_op(w, ts, 0); } mon::tl_logical = -1; } }
+        sched::on_thread_start = mon::note_stack; mon::note_stack(); mon::reset(); arena::reset(); memset(unsafe::callers, 0, sizeof unsafe::callers);
         auto sequential = [&]() { for (int t = 0; t < K; ++t) { ThreadState ts; uint64_t h = 0xC18; mon::tl_logical = t; mon::on = true; for (auto& k : ops[t]) h = run_op(k, ts, h); mon::on = false; mon::tl_logical = -1; seq[t] = h; } };
         auto concurrent = [&]() {
             std::vector<std::function<void()> > bodies; for (int t = 0; t < K; ++t) bodies.push_back([&, t]() { ThreadState ts; uint64_t h = 0xC18; mon::tl_logical = t; for (auto& k : ops[t]) h = run_op(k, ts, h); mon::tl_logical = -1; con[t] = h; });
             mon::on = true; sched::run(bodies, p.cfg.u64("sched", 1), (int)p.cfg.num("blo", 1), (int)p.cfg.num("bhi", 1000)); mon::on = false; };
         if (p.cfg.num("seqfirst")) { sequential(); concurrent(); } else { concurrent(); sequential(); }
         st.inc("chk.thread_digest", (uint64_t)K); st.inc("fault.context_switch", sched::switches); st.inc("probe.scheduler_steps", sched::steps);
-        st.inc("probe.static_reads", mon::n_static_reads); st.inc("probe.static_writes_unguarded", mon::n_static_writes); st.inc("probe.static_writes_in_guarded_init", mon::n_guarded_writes);
+        st.inc("probe.static_reads", mon::n_static_reads); st.inc("probe.static_writes_unguarded", mon::n_static_writes); st.inc("probe.static_writes_in_guarded_init", mon::n_guarded_writes); st.inc("probe.cross_thread_heap_accesses", mon::n_cross_heap); st.inc("probe.accesses_to_memory_allocated_outside_threads", mon::n_other_heap);
         tr.add(fmt("threads=%d steps=%llu switches=%llu schedhash=%llu", K, (unsigned long long)sched::steps, (unsigned long long)sched::switches, (unsigned long long)sched::sched_hash));
         // (a) shared-access rule
         std::set<std::string> shared, read_syms;
         for (size_t i = 0; i < mon::TAB; ++i) { const mon::Ent& e = mon::tab[i]; if (!e.a) continue; st.inc("chk.static_location");
-            if (e.writers) { uint32_t all = e.writers | e.readers; if (all & (all - 1)) shared.insert(static_symbol(e.a << 3)); }
+            if (e.writers) { uint32_t all = e.writers | e.readers; if (all & (all - 1)) shared.insert(arena::contains((void*)(e.a << 3)) ? (arena::owner((void*)(e.a << 3)) == arena::LIFETIME ? std::string("heap-object-created-by-one-time-initialisation") : std::string("heap-object-owned-by-another-thread")) : static_symbol(e.a << 3)); }
             else if (read_syms.size() < 64) { uint32_t r = e.readers; if (r & (r - 1)) read_syms.insert(static_symbol(e.a << 3)); } }
         for (auto& s : read_syms) st.inc("probe.static_read_by_2+_threads." + s.substr(0, 60));
         if (!shared.empty()) { std::string first = *shared.begin(); for (char& c : first) if (c == ' ') c = '_'; std::string all; for (auto& s : shared) all += s + "; "; return Verdict::bad("thr:shared-write:" + first, "hidden shared mutable state inside libtins, written by one thread and accessed by another: " + all); }
